@@ -380,6 +380,10 @@ def _step_args(st, funcutils):
     injected = [PNAMES[t] for t in st["injected"]]
     if st["inj_form"] == "str" and len(injected) == 1:
         injected = injected[0]
+    elif st["inj_form"] == "set" and len(injected) == 1:
+        injected = frozenset(injected)
+    elif st["inj_form"] == "dictkeys" and len(set(injected)) == len(injected):
+        injected = dict.fromkeys(injected).keys()
     elif st["inj_form"] == "none" and not injected:
         injected = None
     else:
@@ -396,6 +400,15 @@ def _step_args(st, funcutils):
         expected = dict(exp)
     elif ef == "mixed":
         expected = [n if d is funcutils.NO_DEFAULT else (n, d) for n, d in exp]
+    elif ef == "tuple_pairs":
+        expected = tuple([n, d] for n, d in exp)              # pairs as lists, in a tuple
+    elif ef == "items_view" and len(dict(exp)) == len(exp):
+        expected = dict(exp).items()
+    elif ef == "odict" and all(d is not funcutils.NO_DEFAULT for _, d in exp) and len(dict(exp)) == len(exp):
+        import collections
+        expected = collections.OrderedDict(exp)
+    elif ef == "name_tuple" and all(d is funcutils.NO_DEFAULT for _, d in exp):
+        expected = tuple(n for n, _ in exp)
     else:
         expected = _iterform(exp, "gen" if ef == "gen" else "list")
     kw = {}
@@ -739,9 +752,10 @@ def make_step(rng, cur, variant, sid):
                 n = rng.choice(sorted(t for t in used if t is not None) or fresh)
             expected.append([n, rng.choice([None] + pick_values(rng, 2, allow_sentinel=False))])
     st = {"injected": injected,
-          "inj_form": rng.choice(["list", "tuple", "gen", "str"] if injected else ["none", "list"]),
+          "inj_form": rng.choice(["list", "tuple", "gen", "str", "set", "dictkeys"] if injected else ["none", "list"]),
           "expected": expected,
-          "exp_form": rng.choice(["pairs", "gen", "str", "names", "dict", "mixed"] if expected else ["none", "pairs"]),
+          "exp_form": rng.choice(["pairs", "gen", "str", "names", "dict", "mixed", "tuple_pairs", "items_view", "odict",
+                                  "name_tuple"] if expected else ["none", "pairs"]),
           "entry": rng.choice(["wraps", "wraps", "update_wrapper"]),
           "update_dict": rng.random() >= 0.1, "hide_wrapped": rng.random() < 0.1,
           "inject_to_varkw": not (injected and rng.random() < 0.25), "id": sid}
